@@ -827,6 +827,38 @@ def check_format_args(chk, units, rule="F1"):
     return n
 
 
+def entry_of(f, lhs):
+    """(table node, index node, field name) of a store target T[i].f - also when it is written through a slot pointer
+    `e = &T[i]; e->f = ..` (e a local with that single definition, or defined so on every assignment) - else None"""
+    l = X.strip(lhs)
+    if l is None or l.get("k") != "member":
+        return None
+    b = X.strip(l["ch"][0])
+    if b is None:
+        return None
+    if b.get("k") == "index":
+        return b["ch"][0], b["ch"][1], l.get("n")
+    if b.get("k") == "ref" and b.get("rk") == "local" and l.get("arrow"):
+        defs = []
+        for x in walk(f.body):
+            if x.get("k") == "assign" and x.get("op") == "=" and (X.strip(x["ch"][0]) or {}).get("d") == b["d"]:
+                defs.append(x["ch"][1])
+            if x.get("k") == "decl":
+                for dcl in x.get("decls", ()):
+                    if dcl["d"] == b["d"] and dcl.get("init") is not None:
+                        defs.append(dcl["init"])
+        if len(defs) != 1:
+            return None
+        r = X.strip(defs[0])
+        if r is not None and r.get("k") == "un" and r.get("op") == "&":
+            t = X.strip(r["ch"][0])
+            if t is not None and t.get("k") == "index":
+                return t["ch"][0], t["ch"][1], l.get("n")
+        if r is not None and r.get("k") == "bin" and r.get("op") == "+" and (r.get("tp") or X.strip(r["ch"][0]).get("tp")):
+            return r["ch"][0], r["ch"][1], l.get("n")
+    return None
+
+
 def check_release_refill(chk, unit, rule="L4"):
     """A table entry's field that is released (FREE(T[i].f)) is filled again on every path that follows, at the same entry:
     readers of the table walk all entries and use the field unconditionally, so an entry left without it is a NULL
@@ -852,8 +884,16 @@ def check_release_refill(chk, unit, rule="L4"):
                        and not X.is_null_const(x["ch"][1]) and x["i"] != c.get("i")]
             # FREE() itself stores NULL into its argument: that store is part of the release
             ok = any(cfg.node_dominates(c["i"], x["i"]) for x in refills)
-            others = [x for x in walk(f.body) if x.get("k") == "assign" and x.get("op") == "=" and X.strip(x["ch"][0]).get("k") == "member"
-                      and X.strip(x["ch"][0]).get("n") == a.get("n") and canon(f, x["ch"][0]) != key]
+            others = []
+            for x in walk(f.body):
+                if x.get("k") == "assign" and x.get("op") == "=" and canon(f, x["ch"][0]) != key:
+                    eo = entry_of(f, x["ch"][0])
+                    if eo is not None and eo[2] == a.get("n") and canon(f, eo[0]) == canon(f, b["ch"][0]):
+                        if canon(f, eo[1]) == canon(f, b["ch"][1]) and not X.is_null_const(x["ch"][1]):
+                            refills.append(x)          # the same entry, written through a slot pointer
+                        else:
+                            others.append(x)
+            ok = ok or any(cfg.node_dominates(c["i"], x["i"]) for x in refills)
             # the contradiction reported: the field of one entry is released and then the same field of ANOTHER entry is filled
             # (an entry that is simply dropped afterwards - popped off its stack - is not this rule's business)
             def reaches(a_id, b_id):
@@ -884,13 +924,42 @@ def check_release_refill(chk, unit, rule="L4"):
                         if l_.get("k") == "ref" and l_.get("rk") == "local":
                             st_ = frozenset(t for t in state if t[1] != l_["d"])
                             cv_ = X.const_val(x_["ch"][1])
-                            return st_ | ({("val", l_["d"], cv_)} if cv_ is not None else set())
+                            if cv_ is not None:
+                                return st_ | {("val", l_["d"], cv_)}
+                            # a slot pointer taken while the index local holds the released entry's index: e = &T[id]
+                            r_ = X.strip(x_["ch"][1])
+                            if r_ is not None and r_.get("k") == "un" and r_.get("op") == "&":
+                                t_ = X.strip(r_["ch"][0])
+                                if t_ is not None and t_.get("k") == "index" and canon(f, t_["ch"][0]) == canon(f, b["ch"][0]):
+                                    j_ = X.strip(t_["ch"][1])
+                                    if X.const_val(j_) == rel_idx or (j_.get("k") == "ref" and ("val", j_.get("d"), rel_idx) in state):
+                                        return st_ | {("slot", l_["d"], rel_idx)}
+                            return st_
                     return state
                 # forward from the release only (paths that do not pass the release are not this rule's business)
                 rb = [b2 for b2, bl in cfg.blocks.items() if c["i"] in bl.el][0]
                 ins_ = {}
-                st0 = frozenset()
+                # constants the index locals hold when the release is reached (must-analysis from the entry)
+                pre_ = {cfg.entry: frozenset()}
+                wk_ = [cfg.entry]
+                while wk_:
+                    cur_ = wk_.pop()
+                    stp_ = pre_[cur_]
+                    for e_ in cfg.blocks[cur_].el:
+                        nd_ = f.nodes.get(e_)
+                        if nd_ is not None:
+                            stp_ = step_(stp_, nd_)
+                    for s_, _, _ in cfg.edges(cur_):
+                        new_ = stp_ if s_ not in pre_ else (pre_[s_] & stp_)
+                        if s_ not in pre_ or new_ != pre_[s_]:
+                            pre_[s_] = new_
+                            wk_.append(s_)
+                st0 = pre_.get(rb, frozenset())
                 els = cfg.blocks[rb].el
+                for e_ in els[:els.index(c["i"])]:
+                    nd_ = f.nodes.get(e_)
+                    if nd_ is not None:
+                        st0 = step_(st0, nd_)
                 for e_ in els[els.index(c["i"]) + 1:]:
                     nd_ = f.nodes.get(e_)
                     if nd_ is not None:
@@ -909,8 +978,13 @@ def check_release_refill(chk, unit, rule="L4"):
                         if nd_ is None:
                             continue
                         if any(nd_ is o for o in others):
-                            ix_ = X.strip(X.strip(X.strip(nd_["ch"][0])["ch"][0])["ch"][1])
-                            seen_store[nd_["i"]] = seen_store.get(nd_["i"], True) and (ix_.get("k") == "ref" and ("val", ix_.get("d"), rel_idx) in st_)
+                            base_ = X.strip(X.strip(nd_["ch"][0])["ch"][0])
+                            if base_.get("k") == "index":
+                                ix_ = X.strip(base_["ch"][1])
+                                hit_ = ix_.get("k") == "ref" and ("val", ix_.get("d"), rel_idx) in st_
+                            else:
+                                hit_ = base_.get("k") == "ref" and ("slot", base_.get("d"), rel_idx) in st_
+                            seen_store[nd_["i"]] = seen_store.get(nd_["i"], True) and hit_
                         st_ = step_(st_, nd_)
                     for s_, _, _ in cfg.edges(cur_):
                         new_ = st_ if s_ not in ins_ else (ins_[s_] & st_)
